@@ -65,6 +65,7 @@ fn main() {
         "C04" => pverif::c04::run(tier, seed, replay),
         "C05" => pverif::c05::run(tier, seed, replay),
         "C09" => pverif::c09::run(tier, seed, replay),
+        "C10" => pverif::c10::run(tier, seed, replay),
         "C11" => pverif::c11::run(tier, seed, replay),
         "C14" => pverif::c14::run(tier, seed, replay),
         _ => {
